@@ -42,6 +42,8 @@ Definition packed := (N * list int)%type.
 Definition unpacked (p : packed) : list N := unpack (N.to_nat (fst p)) (snd p).
 Definition lookup (tbl : list (list N)) (k : N) : list N := nth (N.to_nat k) tbl [].
 Inductive kanswer := KOk (bs : packed) | KErr | KPanic.
+(* a run of equal list elements in a printed tree (tables of 65535 / 65536 equal entries) *)
+Definition rep {A} (n : N) (x : A) : list A := repeat x (N.to_nat n).
 
 
 (* ---- decidable equality of decoded classes (for the comparison decode(written) = facts(tree)) ---- *)
